@@ -269,6 +269,14 @@ def prove(pc, goal, timeout_ms, cross=False, light=False, inputs=None):
     #  3. the 4 s attempt, the fresh process, the cheap counter-model searches, the full budget, retry, external solvers.
     cli_slice_done = False
     if nl:
+        # 0a. the goal ALONE (no hypotheses at all - the smallest subset of the path condition): purely algebraic goals, e.g. a
+        #     conclusion stated together with the equations it follows from (proof by cut), are valid as they stand
+        so_ = z3.Solver()
+        so_.set('rlimit', int(2000 * RL))
+        so_.set('timeout', 3000)
+        so_.add(z3.Not(g))
+        if so_.check() == z3.unsat:
+            return 'discharged', 'z3-5.1(goal alone)', time.time() - t0, None, ''
         # 0. a non-linear goal goes to a FRESH solver process first, on its relevant hypotheses: nlsat inside the long-lived
         #    exploration process was seen to ignore its time limits (one text: 0.3 s fresh, 60 s in process)
         sl0 = next(iter(relevant_slices(pc, g, 1)), (1, None))[1]
